@@ -4,6 +4,7 @@ Line-protocol driver for the stacked-time model (property C06).
 Requests (whitespace separated words; rationals as `num/den`, non-finite cells as `nan`):
 
   spots  <nEndo> q… <first> <simLast>                         -> `q:c q:c …`   (wrt_spots, plan = None)
+  catch  <nEndo> q… <first> <simLast> <fallback> <data>        -> `reported spots | data after _catch_missing`
   resid  <system> <data> <guess>                              -> residual vector in row order
   frames <baseFirst> <n> <nUnant> row… <data>                 -> `breaks | stacked frames | period frames`
   writers <method st|pp> <baseFirst> <n> <nRows> <nUnant> row… <data>
@@ -122,6 +123,10 @@ def stepP : P String := do
   | "spots" => do
     let n ← nat; let endo ← rep n nat; let first ← nat; let simLast ← nat
     pure (" ".intercalate ((wrtSpots endo (columnsToRun first simLast)).map (fun (q, c) => s!"{q}:{c}")))
+  | "catch" => do
+    let n ← nat; let endo ← rep n nat; let first ← nat; let simLast ← nat; let fb ← rat; let d ← dataP
+    let spots := wrtSpots endo (columnsToRun first simLast)
+    pure (" ".intercalate ((missingSpots spots d).map (fun (q, c) => s!"{q}:{c}")) ++ " | " ++ showData (catchMissing spots fb d))
   | "resid" => do
     let s ← system; let d ← dataP; let g ← guessP
     pure (showCells (s.evalFunc g d))
